@@ -52,6 +52,11 @@ func WithGlobalTx(ctx context.Context, gc *GtxConfig, business CallbackWithCtx) 
 	// open global transaction for the first time
 	if !IsSeataContext(ctx) {
 		ctx = InitSeataContext(ctx)
+	} else {
+		// a scope nested on the caller's context works on its own copy of the
+		// transaction variable, so that the enclosing scope's xid, role and
+		// name are intact when this scope ends
+		ctx = cloneSeataContext(ctx)
 	}
 
 	if IsGlobalTx(ctx) {
